@@ -5,12 +5,14 @@
 # Prints VIOLATION / KNOWN-FINDING lines like the other checks, extends /verif/evidence/C18.json.
 # exit 0: nothing (unknown) found; 1: violation; 2: harness error
 set -u
-cd /verif/sim || exit 2
+ROOT="$(cd "$(dirname "${BASH_SOURCE[0]}")/.." && pwd)"
+OUTROOT="${LLSIM_ROOT:-$ROOT}"
+cd "$ROOT/sim" || exit 2
 export CARGO_NET_OFFLINE=true
 SEED="${VERIF_SEED:-20260921}"
-OUT=/verif/sim/target/tmp/c18deep-$$
-mkdir -p "$OUT" /verif/replays
-KNOWN=/verif/known_findings.json
+OUT="$ROOT/sim/target/tmp/c18deep-$$"
+mkdir -p "$OUT" "$OUTROOT/replays"
+KNOWN="$OUTROOT/known_findings.json"
 violations=0; harness=0; known_lines=""
 START=$(date +%s)
 
@@ -26,7 +28,7 @@ EOF
 KNOWN-FINDING: property=C18 signature $sig (see known_findings.json)"
     return
   fi
-  local file="/verif/replays/C18-$(echo "$sig" | tr -c 'A-Za-z0-9-' '_' | cut -c1-60).json"
+  local file="$OUTROOT/replays/C18-$(echo "$sig" | tr -c 'A-Za-z0-9-' '_' | cut -c1-60).json"
   python3 - "$file" "$sig" "$cmd" "$log" <<'EOF'
 import json,sys
 file,sig,cmd,log=sys.argv[1:5]
@@ -44,12 +46,12 @@ ASAN=target/asan/x86_64-unknown-linux-gnu/release/llsim
 asan_runs=0
 if RUSTFLAGS="-Zsanitizer=address" cargo +nightly build --release --offline --features heapbuf \
      --target x86_64-unknown-linux-gnu --target-dir target/asan >"$OUT/asan-build.log" 2>&1; then
-  for spec in "K1 1500" "K2 1500" "K3 1500" "K4 1500" "K5 1500" "K6 1500" "K7 1500" "Q1open 1500" "Q2 200" "Q6 1000" "Q7 1000" "Q9 500"; do
+  for spec in "K1 1500" "K2 1500" "K3 1500" "K4 1500" "K5 1500" "K6 1500" "K7 1500" "Q1open 1500" "Q2 200" "Q6 1000" "Q7 1000" "Q9 500" "QM 20000"; do
     set -- $spec
     ( ASAN_OPTIONS=detect_leaks=0 "$ASAN" mem "$1" "$2" "$SEED" >"$OUT/asan-$1.log" 2>&1; echo $? >"$OUT/asan-$1.rc" ) &
   done
   wait
-  for spec in K1 K2 K3 K4 K5 K6 K7 Q1open Q2 Q6 Q7 Q9; do
+  for spec in K1 K2 K3 K4 K5 K6 K7 Q1open Q2 Q6 Q7 Q9 QM; do
     rc=$(cat "$OUT/asan-$spec.rc")
     n=$(grep -o '[0-9]* runs' "$OUT/asan-$spec.log" | head -1 | cut -d' ' -f1)
     asan_runs=$((asan_runs + ${n:-0}))
@@ -57,7 +59,7 @@ if RUSTFLAGS="-Zsanitizer=address" cargo +nightly build --release --offline --fe
       if grep -q "ERROR: AddressSanitizer" "$OUT/asan-$spec.log"; then
         kind=$(grep -o "AddressSanitizer: [a-z-]*" "$OUT/asan-$spec.log" | head -1 | cut -d' ' -f2)
         where=$(grep -o "/repo/core/src/[a-z_]*\.rs" "$OUT/asan-$spec.log" | head -1 | xargs -r basename)
-        report "asan:$kind:${where:-unknown}" "cd /verif/sim && ASAN_OPTIONS=detect_leaks=0 $ASAN mem $spec <runs> $SEED" "$OUT/asan-$spec.log"
+        report "asan:$kind:${where:-unknown}" "cd $ROOT/sim && ASAN_OPTIONS=detect_leaks=0 $ASAN mem $spec <runs> $SEED" "$OUT/asan-$spec.log"
       else
         echo "HARNESS-ERROR: ASan run of $spec exited with $rc"; tail -5 "$OUT/asan-$spec.log"; harness=1
       fi
@@ -103,7 +105,7 @@ for name in seq1 seq2 seq3 k1 k3 k7 thr-safe thr-all; do
     if [ -z "$where" ]; then
       echo "HARNESS-ERROR: Miri reported UB outside llfree in $name:"; echo "$msg"; harness=1
     else
-      report "miri:$kind:$where" "cd /verif/sim && MIRIFLAGS='$MIRI_BASE' cargo +nightly miri run --offline --target-dir target/miri -- $(grep -o 'mem[a-z-]* .*' <<<"$name" || true) (scenario $name, see tools/c18_deep.sh)" "$OUT/miri-$name.log"
+      report "miri:$kind:$where" "cd $ROOT/sim && MIRIFLAGS='$MIRI_BASE' cargo +nightly miri run --offline --target-dir target/miri -- $(grep -o 'mem[a-z-]* .*' <<<"$name" || true) (scenario $name, see tools/c18_deep.sh)" "$OUT/miri-$name.log"
     fi
   elif [ "$rc" != 0 ]; then
     echo "HARNESS-ERROR: Miri scenario $name exited with $rc"; tail -5 "$OUT/miri-$name.log"; harness=1
@@ -114,9 +116,11 @@ END=$(date +%s)
 echo "C18 deep: asan runs=$asan_runs miri runs=$miri_runs violations=$violations wall=$((END-START))s"
 
 # ---------------------------------------------------------------- evidence
-python3 - "$asan_runs" "$miri_runs" "$violations" "$((END-START))" "$(echo "$known_lines" | sort -u | sed '/^$/d')" <<'EOF'
+C18_OUTROOT="$OUTROOT" python3 - "$asan_runs" "$miri_runs" "$violations" "$((END-START))" "$(echo "$known_lines" | sort -u | sed '/^$/d')" <<'EOF'
 import json,sys
-p='/verif/evidence/C18.json'
+import os
+p=os.environ.get("LLSIM_ROOT") or os.path.join(os.path.dirname(os.path.abspath(sys.argv[0] if False else "")), "")
+p=os.path.join(os.environ["C18_OUTROOT"], "evidence/C18.json")
 try: ev=json.load(open(p))
 except Exception: sys.exit(0)
 c=ev['coverage']
